@@ -480,6 +480,102 @@ func scenarios(cfg *mc.Config, emit func(mc.Scenario)) {
 		c.AddExecutions(2)
 		c.Observe("done", 2)
 	}})
+	// concurrent Dials from one factory that holds a ticket
+	emit(mc.Scenario{Name: "tickets/concurrent-dials", Bound: 2, Weight: 300, Run: func(c *mc.Ctx) {
+		dir := freshDir("conc")
+		rnd.Install(rnd.New(seed, "c15-real-conc"))
+		refRnd := rnd.New(seed, "c15-ref-conc")
+		cf, err := factory(dir)
+		if err != nil {
+			fail(c, "startup", "startup/factory", "%v", err)
+			return
+		}
+		newT := rnd.New(seed, "c15-conc-ticket").Bytes(144)
+		tickets := map[string][]byte{}
+		used := map[string]int{}
+		var errs []string
+		res := sched.Run(c, sched.Options{PreemptKinds: []string{"write", "read"}, NoEarlyTimers: true, Start: start, MaxSteps: 3_000_000}, func() {
+			s := sched.Cur()
+			// first connection: the server issues a ticket
+			var r sessResult
+			so := sessOpts{so: ref.SSServerOpts{PadLen: 7, Seed: seed32, Issue: newT, Tickets: tickets, Separate: true}, cf: cf, clientW: []int{10}, serverW: []int{5}}
+			sessionBody(so, refRnd, &r)
+			if r.dialErr != nil || r.srvErr != nil {
+				errs = append(errs, fmt.Sprint("first connection: ", r.dialErr, r.srvErr))
+				return
+			}
+			tickets[string(newT[32:])] = newT[:32]
+			// two overlapping Dials
+			finished := 0
+			for i := 0; i < 2; i++ {
+				i := i
+				s.Spawn(fmt.Sprintf("dialer%d", i), func() {
+					defer func() { finished++ }()
+					cw, sw := wire.Pipe(fmt.Sprintf("client%d", i), fmt.Sprintf("server%d", i))
+					sdone := false
+					s.Spawn(fmt.Sprintf("ref-server%d", i), func() {
+						defer func() { sdone = true }()
+						rs, err := ref.SSServe(sw, ref.SSServerOpts{KB: kB, Priv: rnd.New(seed, fmt.Sprint("c15-conc-priv-", i)).Bytes(192), PadLen: 7, Hour: hour(), Tickets: tickets, Separate: true}, rnd.New(seed, fmt.Sprint("c15-conc-srv-", i)))
+						if err != nil {
+							errs = append(errs, fmt.Sprintf("server %d: %v", i, err))
+							sw.Close()
+							return
+						}
+						if rs.Kind == "ticket" {
+							used[rs.Ticket]++
+						}
+						if err := rs.RecvUntil(4); err == nil {
+							rs.Send([]byte("pong"), 0)
+						}
+						for {
+							if _, err := rs.RecvOnce(); err != nil {
+								break
+							}
+						}
+						sw.Close()
+					})
+					conn, err := dial(cf, clientArgs(kB), cw)
+					if err != nil {
+						errs = append(errs, fmt.Sprintf("dial %d: %v", i, err))
+						cw.Close()
+					} else {
+						conn.Write([]byte("ping"))
+						buf := make([]byte, 8)
+						got := 0
+						for got < 4 {
+							n, err := conn.Read(buf)
+							got += n
+							if err != nil {
+								errs = append(errs, fmt.Sprintf("read %d: %v", i, err))
+								break
+							}
+						}
+						conn.Close()
+					}
+					s.Point("wait-server", func() bool { return sdone })
+				})
+			}
+			s.Point("join", func() bool { return finished == 2 })
+		})
+		if len(res.Panics) > 0 {
+			fail(c, "no-panic", "panic/concurrent-dials", "%s", res.Panics[0])
+			return
+		}
+		c.Observe("used", fmt.Sprint(used, len(errs)))
+		if len(errs) > 0 {
+			fail(c, "handshake", "concurrent-dials/error", "%v", errs)
+			return
+		}
+		if res.Quiescent || res.Livelock {
+			fail(c, "handshake", "concurrent-dials/stuck", "%+v", res.Blocked)
+			return
+		}
+		for _, n := range used {
+			if n > 1 {
+				fail(c, "one-shot", "ticket-reused/concurrent", "two overlapping Dials presented the same ticket (%d handshakes)", n)
+			}
+		}
+	}})
 	// (5) histories
 	depth := 4
 	if thorough {
@@ -492,7 +588,7 @@ func scenarios(cfg *mc.Config, emit func(mc.Scenario)) {
 
 // ---- histories -------------------------------------------------------------------------
 
-var histOps = []string{"connect", "connect+issue", "restart", "advance-1h", "advance-7d+1s", "delete-ticket-file"}
+var histOps = []string{"connect", "connect+issue", "restart", "advance-1h", "advance-7d+1s", "delete-ticket-file", "connect-write-error"}
 
 func historyScenario(depth int, seed int64) mc.Scenario {
 	return mc.Scenario{Name: fmt.Sprintf("histories/depth=%d", depth), Params: map[string]any{"depth": depth, "ops": histOps}, Weight: 200 * depth, Run: func(c *mc.Ctx) {
@@ -529,6 +625,41 @@ func historyScenario(depth int, seed int64) mc.Scenario {
 					s.Advance(7*24*time.Hour + time.Second)
 				case "delete-ticket-file":
 					os.Remove(filepath.Join(dir, "scramblesuit_tickets.json"))
+				case "connect-write-error":
+					// the client's handshake write reaches the server but is reported as
+					// failed (connection reset right behind it): whatever was presented
+					// counts as used
+					cw, sw := wire.Pipe("client", "server")
+					cw.WriteFaultAfter = func(n int, _ []byte) error {
+						if n == 0 {
+							return wire.ErrReset
+						}
+						return nil
+					}
+					var kind, tk string
+					done := false
+					s.Spawn("ref-server", func() {
+						defer func() { done = true }()
+						rs, err := ref.SSServe(sw, ref.SSServerOpts{KB: kB, Priv: refRnd.Bytes(192), PadLen: 7, Hour: hour(), Tickets: tickets, Separate: true}, refRnd)
+						if err == nil {
+							kind, tk = rs.Kind, rs.Ticket
+						}
+						sw.Close()
+					})
+					if conn, err := dial(cf, clientArgs(kB), cw); err == nil {
+						conn.Close()
+					} else {
+						cw.Close()
+					}
+					s.Point("wait-server", func() bool { return done })
+					if kind == "ticket" {
+						used[tk]++
+						if used[tk] > 1 {
+							fail(c, "one-shot", "ticket-reused", "history %v: ticket presented in %d handshakes", hist, used[tk])
+							return
+						}
+					}
+					clientHas = ""
 				case "connect", "connect+issue":
 					var r sessResult
 					so := sessOpts{so: ref.SSServerOpts{PadLen: 7, Seed: bytes.Repeat([]byte{9}, 32), Tickets: tickets, IssuedAt: issuedAt, Separate: true}, cf: cf, clientW: []int{10}, serverW: []int{5}}
